@@ -179,7 +179,65 @@ Theorem C19_translated_constants_fit_model :
 Proof. exact constants_fit_model. Qed.
 Print Assumptions C19_translated_constants_fit_model.
 
+(* ---- the producer side: one plain blocking send; a full channel makes the producer wait ---- *)
+(* What the translator read in WriteEvent / WriteEventWithTimestamp on this run: the hand-over to
+   the batching loop is exactly one send statement on toBatchMessagesChan, a plain statement (not
+   a select case, not under go / defer, not in a loop or a stored closure), there is no select
+   and no go statement in the two functions, and the value sent is the message the conversion
+   produced before the send.  Hence the step of the model: on a full, open channel a publication
+   is a stutter — the producer waits, nothing is accepted, WriteEvent has not returned.
+   ([step_pub] models any other hand-over as "WriteEvent returns, the message is outside the
+   pipeline"; C19_conservation, C19_accepted_meaning, C19_flush, ... are proved through
+   [pub_sync = true] and fail with this theorem when the source changes shape.) *)
+Theorem C19_publish_is_blocking_send :
+  ew_pub_single_send = true /\ ew_pub_plain_send = true /\ ew_pub_no_select = true /\
+  ew_pub_no_go = true /\ ew_pub_convert_first = true /\
+  (forall s p e, closed s = false -> publish_enabled s = false -> step (LPub p e) s = s).
+Proof. exact publish_is_blocking_send. Qed.
+Print Assumptions C19_publish_is_blocking_send.
+
+(* From every reachable state, whatever WriteEvent calls any number of producers issue: as long
+   as the batching loop does not move, no more of them are accepted (return) than the channel has
+   room for, and nothing is delivered meanwhile. *)
+Theorem C19_full_channel_blocks_producers : forall sched pubs,
+  let s := run sched init in
+  let s' := run (map pub_label pubs) s in
+  (length (accepted s') + length (chan s) <= length (accepted s) + N.to_nat ew_chan_cap)%nat /\
+  delivered s' = delivered s.
+Proof. exact full_channel_blocks_producers. Qed.
+Print Assumptions C19_full_channel_blocks_producers.
+
+(* The forced "channel full" schedule (OFull: the batching loop is stalled at its Push while the
+   producers publish).  From every reachable state: at most capacity + 1 WriteEvent calls return
+   during the stall (the channel, plus the one message the stalled loop holds) ... *)
+Theorem C19_stalled_batcher_bounds_returns : forall sched l,
+  let s := run sched init in
+  (N.to_nat (stalled_returns l s) + length (chan s) <= N.to_nat ew_chan_cap + 1)%nat.
+Proof. exact stalled_returns_bound. Qed.
+Print Assumptions C19_stalled_batcher_bounds_returns.
+
+(* ... exactly min(number of publications, capacity + 1) when the loop was idle on an empty, open
+   channel (the closed form the long cases are compared with, [full_returns]) ... *)
+Theorem C19_stalled_returns_closed_form : forall sched l,
+  let s := run sched init in
+  full_pre_ok s = true -> forallb (fun pe => supported (snd pe)) l = true ->
+  stalled_returns l s = full_returns l.
+Proof. exact stalled_returns_closed_form. Qed.
+Print Assumptions C19_stalled_returns_closed_form.
+
+(* ... and once the stall is over every one of the publications is accepted, in the order listed
+   (per producer: the order of its WriteEvent calls); with C19_flush, Close then hands exactly
+   this sequence to the broker. *)
+Theorem C19_full_accepts_all_in_order : forall sched l,
+  let s := run sched init in
+  closed s = false -> forallb (fun pe => supported (snd pe)) l = true ->
+  let s' := run (full_labels l s) s in
+  accepted s' = accepted s ++ map msg_of_pub l /\ closed s' = false.
+Proof. exact full_accepts_all. Qed.
+Print Assumptions C19_full_accepts_all_in_order.
+
 (* ---- the schedules forced by the harness are schedules of the model ---- *)
+(* (every operation, OFull included: [coarse_sched] is built from [op_labels]) *)
 Theorem C19_forced_schedules_are_schedules : forall ops,
   coarse_state ops init_settled = run (init_labels ++ coarse_sched ops init_settled) init.
 Proof. exact forced_schedule_is_schedule. Qed.
@@ -200,4 +258,22 @@ Proof.
   cbn zeta. split; [vm_compute; reflexivity|]. split; [vm_compute; reflexivity|].
   split; [vm_compute; reflexivity|]. split; [|exact (conj bwc_fair bw_fair)].
   apply nodupb_NoDup. vm_compute. reflexivity.
+Qed.
+
+(* non-vacuity of the "channel full" theorems: after one publication the writer sits in the write
+   function, the batching loop is idle on the empty open channel ([full_pre_ok]); a burst of
+   capacity + 4 supported events then has exactly capacity + 1 returns during the stall *)
+Example C19_full_nonvacuous :
+  let ev := mkEvent 0 0 [] [] in
+  let l := expand_runs 0 [] [] [(0, 1, ew_chan_cap + 4)] in
+  let s0 := coarse_state [OPub 0 ev] init_settled in
+  full_pre_ok s0 = true /\ in_write s0 = true /\
+  forallb (fun pe => supported (snd pe)) l = true /\
+  Nlen l = ew_chan_cap + 4 /\ full_returns l = ew_chan_cap + 1 /\
+  stalled_returns l s0 = ew_chan_cap + 1.
+Proof.
+  cbn zeta. do 5 (split; [vm_compute; reflexivity|]).
+  rewrite forced_schedule_is_schedule.
+  rewrite stalled_returns_closed_form; [vm_compute; reflexivity| |vm_compute; reflexivity].
+  rewrite <- forced_schedule_is_schedule. vm_compute. reflexivity.
 Qed.
